@@ -26,7 +26,7 @@ Cfgs == [Macros -> CfgVals]
 
 Conds == {[t |-> "def", m |-> "A"], [t |-> "ndef", m |-> "A"], [t |-> "val", m |-> "A"],
           [t |-> "eq", m |-> "A", n |-> 1], [t |-> "defand", m |-> "A", m2 |-> "B"],
-          [t |-> "const", n |-> 0], [t |-> "const", n |-> 1]}
+          [t |-> "const", n |-> 0], [t |-> "const", n |-> 1], [t |-> "plus", m |-> "A"]}
          \cup (IF Rich THEN {[t |-> "def", m |-> "B"], [t |-> "eq", m |-> "B", n |-> 2],
                              [t |-> "val", m |-> "B"], [t |-> "bad"]} ELSE {})
 DefVals == IF Rich THEN {"", "1", "2"} ELSE {"1", "2"}
